@@ -710,6 +710,9 @@ func (c *codegen) pickVarsFromNodes(nodes []nodeContext, markAsUsed func(name st
 					return false
 				case *ast.DeferStmt:
 					nextExprToCheck = append(nextExprToCheck, val.derive(n.Call.Fun))
+					for _, arg := range n.Call.Args { // defer f(Unused) => mark Unused as "used".
+						nextExprToCheck = append(nextExprToCheck, val.derive(arg))
+					}
 					return false
 				case *ast.BasicLit:
 					return false
